@@ -647,6 +647,30 @@ func (e *bitEnv) exec(stmts []ast.Stmt) ([]bval, bool) {
 				if id, ok := core.Unparen(r).(*ast.Ident); ok && id.Name == "nil" {
 					continue
 				}
+				// return T{F: x, ...}: the fields of the result are recorded like assignments to a named result
+				if cl, ok := core.Unparen(r).(*ast.CompositeLit); ok {
+					if _, isStruct := e.info.TypeOf(cl).Underlying().(*types.Struct); isStruct {
+						okAll := true
+						for _, el := range cl.Elts {
+							kv, isKV := el.(*ast.KeyValueExpr)
+							kid, isId := ast.Expr(nil).(*ast.Ident), false
+							if isKV {
+								kid, isId = kv.Key.(*ast.Ident)
+							}
+							if !isKV || !isId {
+								okAll = false
+								continue
+							}
+							v := e.eval(kv.Value)
+							vv := v
+							e.flds["return."+kid.Name] = &vv
+						}
+						if okAll {
+							out = append(out, bval{ok: true})
+							continue
+						}
+					}
+				}
 				out = append(out, e.eval(r))
 			}
 			return out, true
